@@ -16,7 +16,7 @@ TraceLog == TLCGet(7)
 LoadLog == TLCSet(7, ndJsonDeserialize(IOEnv.TRACE))
 
 VARIABLES l, cwv, active, nsteps
-tvars == <<pt, tab, M, unk, deg, ct, rcvd, nullderef, l, cwv, active, nsteps>>
+tvars == <<pt, tab, M, unk, deg, ct, nrep, rcvd, nullderef, l, cwv, active, nsteps>>
 
 Dummy == [k |-> 1, r |-> 1, N1 |-> 3, seed |-> 1]
 VecOf(v) == { v[i][1] : i \in DOMAIN v }
@@ -27,6 +27,7 @@ InitFromH(H, k, r) ==
       unk |-> [ row \in 0 .. (r - 1) |-> Cardinality(H[row + 1]) ],
       deg |-> [ row \in 0 .. (r - 1) |-> Cardinality(H[row + 1]) ],
       ct  |-> [ row \in 0 .. (r - 1) |-> NoVal ],
+      nrep |-> 0,
       bad |-> FALSE ]
 
 SameAsLogged(st, it, p) ==
@@ -36,16 +37,17 @@ SameAsLogged(st, it, p) ==
           /\ (st.ct[row] # NoVal) = (it.ct[row + 1] = 1)
           /\ { e[2] : e \in { f \in st.M : f[1] = row } } = ToSet(it.rows[row + 1])
     /\ { e \in 0 .. (p.k + p.r - 1) : st.tab[e] # NoVal } = ToSet(it.known)
+    /\ st.nrep = it.nrep
 
 Adopt(st) ==
-    /\ tab' = st.tab /\ M' = st.M /\ unk' = st.unk /\ deg' = st.deg /\ ct' = st.ct /\ nullderef' = st.bad
+    /\ tab' = st.tab /\ M' = st.M /\ unk' = st.unk /\ deg' = st.deg /\ ct' = st.ct /\ nrep' = st.nrep /\ nullderef' = st.bad
 
-Keep == UNCHANGED <<pt, tab, M, unk, deg, ct, rcvd, nullderef, cwv, active, nsteps>>
+Keep == UNCHANGED <<pt, tab, M, unk, deg, ct, nrep, rcvd, nullderef, cwv, active, nsteps>>
 
 Init2 ==
     /\ LoadLog
     /\ l = 1 /\ pt = Dummy /\ cwv = <<>> /\ active = FALSE /\ nsteps = 0 /\ rcvd = {}
-    /\ tab = <<>> /\ M = {} /\ unk = <<>> /\ deg = <<>> /\ ct = <<>> /\ nullderef = FALSE
+    /\ tab = <<>> /\ M = {} /\ unk = <<>> /\ deg = <<>> /\ ct = <<>> /\ nrep = 0 /\ nullderef = FALSE
 
 Check(st, ev, p) ==
     IF SameAsLogged(st, ev.it, p)
@@ -76,7 +78,7 @@ TNext ==
                     /\ UNCHANGED <<pt, cwv>>
              [] ev.e \in {"Finish", "Release", "Reset", "MemFault"} /\ (ev.e \in {"Reset", "MemFault"} \/ ev.s = 0) ->
                     /\ active' = FALSE
-                    /\ UNCHANGED <<pt, tab, M, unk, deg, ct, rcvd, nullderef, cwv, nsteps>>
+                    /\ UNCHANGED <<pt, tab, M, unk, deg, ct, nrep, rcvd, nullderef, cwv, nsteps>>
              [] OTHER -> Keep
     /\ IF l = Len(TraceLog) THEN PrintT(<<"ITSTEPS", nsteps'>>) ELSE TRUE
 
